@@ -112,6 +112,26 @@ def sdp_nested(depth, width16=True, leaf=b"\x08\x01"):
     return e
 
 
+def sdp_nested_siblings(rng, depth, kinds=(0x30, 0x38), before=(1, 2), after=(0, 1)):
+    """well-formed containers nested `depth` levels, built inside-out; every level is a SEQUENCE (0x30) or an ALTERNATIVE
+    (0x38) that holds `before` small well-formed elements, then the nested container, then `after` more of them."""
+    scalars = [b"\x00", b"\x08\x01", b"\x28\x01", b"\x09\x00\x02", b"\x19\x11\x01", b"\x25\x01x", b"\x35\x00"]
+
+    def wrap(kind, body):
+        if len(body) < 256 and rng.random() < 0.3:
+            return bytes([kind | 5, len(body)]) + body
+        if len(body) < 65536:
+            return bytes([kind | 6]) + len(body).to_bytes(2, "big") + body
+        return bytes([kind | 7]) + len(body).to_bytes(4, "big") + body
+
+    e = wrap(rng.choice(kinds), b"")
+    for _ in range(depth):
+        pre = b"".join(rng.choice(scalars) for _ in range(rng.randint(*before)))
+        post = b"".join(rng.choice(scalars) for _ in range(rng.randint(*after)))
+        e = wrap(rng.choice(kinds), pre + e + post)
+    return e
+
+
 def sdp_size_lie(rng):
     """data elements whose size descriptor disagrees with the bytes that follow"""
     kind = rng.randrange(7)
